@@ -21,21 +21,35 @@ Theorem C07_global_unused_deterministic : forall p sd g i j, global_used p sd g 
 Proof. exact run_global_unused. Qed.
 Print Assumptions C07_global_unused_deterministic.
 
+(* 1'. Several calls on one seeded object: the second call continues where the first left the streams ([seq p q]); k calls propose what
+       one long call proposes, and a sequence of calls without global draws does not depend on the global stream. *)
+Theorem C07_run_seq : forall p q sd g i j,
+  run (seq p q) sd g i j = (run p sd g i j ++ run q sd g (i + seeded_used p sd g i j) (j + global_used p sd g i j))%list.
+Proof. exact run_seq. Qed.
+Print Assumptions C07_run_seq.
+
+Theorem C07_calls_compose : forall p q, no_global p -> no_global q -> forall sd g g' i j j',
+  run (seq p q) sd g i j = (run p sd g' i j' ++ run q sd g' (i + seeded_used p sd g' i j') j')%list.
+Proof. exact calls_compose. Qed.
+Print Assumptions C07_calls_compose.
+
 (* 2. The translator recognised every source shape, and its numeric site lists are the ones computed here from the string facts. *)
 Theorem C07_sites_complete :
   DH.Generated.Facts_C07.srcfacts_ok = true /\ map site_triple nsites = DH.Generated.Facts_C07.rng_sites_num /\
-  map esite_quad nenv = DH.Generated.Facts_C07.env_sites_num /\ w_sample_possible wfacts = DH.Generated.Facts_C07.world_num.
+  map esite_quad nenv = DH.Generated.Facts_C07.env_sites_num /\ w_sample_possible wfacts = DH.Generated.Facts_C07.world_num /\
+  w_npint_seeded wfacts = DH.Generated.Facts_C07.seed_test_accepts_numpy_int.
 Proof. exact sites_complete. Qed.
 Print Assumptions C07_sites_complete.
 
-(* 3. Every RNG call site that a configuration class of the quantifier - except acq_func MES / MESd - can reach is fed by the seeded stream. *)
-Theorem C07_sites_seeded : forall c, in_quantifier c = true -> is_mes c = false -> sites_ok wfacts c nsites = true.
+(* 3. Every RNG call site that a configuration class of the quantifier - Python int seed, not acq_func MES / MESd (see 5, 5') - can reach
+      is fed by the seeded stream. *)
+Theorem C07_sites_seeded : forall c, in_quantifier c = true -> is_mes c = false -> np_seed c = false -> sites_ok wfacts c nsites = true.
 Proof. exact sites_seeded. Qed.
 Print Assumptions C07_sites_seeded.
 
 (* 4. Hence: whatever reachable sites an execution visits, in whatever order, with whatever deterministic computation in between,
       the proposed configurations do not depend on the global stream. *)
-Theorem C07_seeded_runs_ignore_global : forall c, in_quantifier c = true -> is_mes c = false -> forall sched,
+Theorem C07_seeded_runs_ignore_global : forall c, in_quantifier c = true -> is_mes c = false -> np_seed c = false -> forall sched,
   (forall i, In i sched -> exists s, nth_error nsites i = Some s /\ reach wfacts c s = true) ->
   forall out sd g g' j j',
     run (prog_of out (map (src_at wfacts c nsites) sched) []) sd g 0 j = run (prog_of out (map (src_at wfacts c nsites) sched) []) sd g' 0 j'.
@@ -48,9 +62,20 @@ Proof. exact mes_refuted. Qed.
 Print Assumptions C07_mes_refuted.
 
 (* ... and once that site is seeded (fixes/F09) every class of the quantifier passes it. *)
-Theorem C07_sites_seeded_when_mes_fixed : site_in prefix_mes_site nsites = false -> forall c, in_quantifier c = true -> sites_ok wfacts c nsites = true.
+Theorem C07_sites_seeded_when_mes_fixed : site_in prefix_mes_site nsites = false -> forall c, in_quantifier c = true -> np_seed c = false -> sites_ok wfacts c nsites = true.
 Proof. exact sites_seeded_when_mes_fixed. Qed.
 Print Assumptions C07_sites_seeded_when_mes_fixed.
+
+(* 5'. F87: a numpy integer is an integer random_state, but `type(random_state) is int` sends it to the unseeded np.random.RandomState() ... *)
+Theorem C07_npint_refuted : w_npint_seeded wfacts = false -> forall c, np_seed c = true -> site_in fresh_search_site nsites = true -> sites_ok wfacts c nsites = false.
+Proof. exact npint_refuted. Qed.
+Print Assumptions C07_npint_refuted.
+
+(* ... and with both repairs in the source every class of the quantifier passes the site check. *)
+Theorem C07_sites_seeded_when_all_fixed : site_in prefix_mes_site nsites = false -> w_npint_seeded wfacts = true ->
+  forall c, in_quantifier c = true -> sites_ok wfacts c nsites = true.
+Proof. exact sites_seeded_when_all_fixed. Qed.
+Print Assumptions C07_sites_seeded_when_all_fixed.
 
 (* 6. Hash seed / clock / directory order: for every class but RegularizedEvolution, every reachable environment read only
       flows into log messages or log-file names. *)
@@ -86,7 +111,7 @@ Print Assumptions C07_global_draw_refuted.
 (* ---- non-vacuity *)
 Definition c_example (s : search_t) (a : acq_t) : cfg :=
   {| c_search := s; c_surr := 1; c_acq := a; c_acq_d := false; c_strategy := 0; c_init := 0; c_cond := false; c_moo := false;
-     c_transfer := false; c_int_seed := true |}.
+     c_transfer := false; c_seed := SeedPyInt |}.
 
 Example quantifier_inhabited : in_quantifier (c_example CBO UCB) = true /\ is_mes (c_example CBO UCB) = false /\ is_regevo (c_example CBO UCB) = false.
 Proof. repeat split; reflexivity. Qed.
@@ -98,5 +123,10 @@ Example regevo_witness_on_snapshot : env_ok wfacts (c_example RegEvo UCB) [prefi
 Proof. reflexivity. Qed.
 Example a_global_site_would_break : sites_ok wfacts (c_example CBO UCB) ({| s_owner := O_CBO; s_key := S_None; s_cls := K_Global |} :: nsites) = false.
 Proof. vm_compute. reflexivity. Qed.
+Example numpy_seed_witness_on_snapshot :
+  sites_ok {| w_sample_possible := false; w_npint_seeded := false |}
+           {| c_search := CBO; c_surr := 1; c_acq := UCB; c_acq_d := false; c_strategy := 0; c_init := 0; c_cond := false; c_moo := false; c_transfer := false; c_seed := SeedNpInt |}
+           [fresh_search_site] = false.
+Proof. reflexivity. Qed.
 Example seeds_matter : forall g, run (prog_of (fun l => hd 0%Z l) [SSeeded] []) (fun _ => 1%Z) g 0 0 <> run (prog_of (fun l => hd 0%Z l) [SSeeded] []) (fun _ => 2%Z) g 0 0.
 Proof. intros g. apply seed_sensitive. cbn. discriminate. Qed.
